@@ -11,10 +11,12 @@ from ..simkit import ADDRS, Sim, cfg, desc_semantic, ep_desc, hdr, install_rando
 from ..vloop import RES
 
 PID = "C14"
+# servers 3 and 4 differ from servers 1 and 0 in the IPv6 scope id / in the port only
+SRV = ADDRS + [("2001:db8::3", 30490, 0, 7), ("10.0.0.2", 30491)]
 RULE = (
     "exhaustive: every script of bounded length over {subscribe / stop-subscribe of two eventgroups, start, stop} x timing prefixes relative to the refresh tick, finite TTL with refresh and infinite TTL without; random: cases = scripts of subscribe_eventgroup / stop_subscribe_eventgroup (no duplicate subscribes of a pair) / start / stop "
     "of the ServiceSubscriber for 6 eventgroups (IPv4 and IPv6 local endpoints, UDP and TCP, two of them with the same ids "
-    "but different local endpoints, two pairs sharing a local address and port with different transport protocols) and 3 servers, with SUBSCRIBE_TTL 5 and refresh interval from {1, 3} or infinite TTL "
+    "but different local endpoints, two pairs sharing a local address and port with different transport protocols) and 5 servers (two of them differing from another one in the IPv6 scope id or the port only), with SUBSCRIBE_TTL 5 and refresh interval from {1, 3} or infinite TTL "
     "without refresh; steps placed by delay, relative to the pending refresh tick (-4RES, -RES/4, +RES/4, +4RES, halfway) or "
     "inside one iteration (several calls, both orders). A model server per destination applies the transmitted Subscribe / "
     "StopSubscribe entries in order. non-trivial = stop-subscribe and subscribe of the same eventgroup in one iteration, or "
@@ -47,7 +49,7 @@ def _step(draw):
     op = draw(st.sampled_from(["sub", "sub", "sub", "unsub", "unsub", "start", "stop", "wait"]))
     s = {"op": op, "when": draw(when_st)}
     if op in ("sub", "unsub"):
-        s.update(e=draw(st.integers(0, 5)), srv=draw(st.integers(0, 2)))
+        s.update(e=draw(st.integers(0, 5)), srv=draw(st.sampled_from([0, 1, 2, 0, 1, 2, 3, 4])))
     return s
 
 
@@ -143,7 +145,7 @@ def run_case(case):
         def execute(k, s):
             op = s["op"]
             if op == "sub":
-                p = (s["e"] % len(EGS), s["srv"] % len(ADDRS))
+                p = (s["e"] % len(EGS), s["srv"] % len(SRV))
                 if p in requested:
                     return
                 if any(q[0] == p[0] and q[1] == p[1] for q in requested):
@@ -151,14 +153,14 @@ def run_case(case):
                 requested.add(p)
                 if running[0]:
                     open_iv(p)
-                sub.subscribe_eventgroup(_eg(p[0]), ADDRS[p[1]])
+                sub.subscribe_eventgroup(_eg(p[0]), SRV[p[1]])
             elif op == "unsub":
-                p = (s["e"] % len(EGS), s["srv"] % len(ADDRS))
+                p = (s["e"] % len(EGS), s["srv"] % len(SRV))
                 if p not in requested:
                     return
                 requested.discard(p)
                 close_iv(p)
-                sub.stop_subscribe_eventgroup(_eg(p[0]), ADDRS[p[1]])
+                sub.stop_subscribe_eventgroup(_eg(p[0]), SRV[p[1]])
             elif op == "start":
                 if running[0]:
                     return
@@ -186,7 +188,7 @@ def run_case(case):
                 known = [i for i in range(len(EGS)) if _ident(i) == ident]
                 require(known, "C14.entry-content", lambda: f"Subscribe entry {ident} names no configured eventgroup / local endpoint; configured {[_ident(i) for i in range(len(EGS))]}")
                 require(e["counter"] == 0, "C14.entry-content", lambda: f"counter {e['counter']}")
-                require(e["dest"] in ADDRS, "C14.destination", lambda: f"sent to {e['dest']}")
+                require(e["dest"] in SRV, "C14.destination", lambda: f"sent to {e['dest']}")
                 if e["ttl"] == 0:
                     held[e["dest"]].discard(ident)
                 else:
@@ -194,7 +196,7 @@ def run_case(case):
                     held[e["dest"]].add(ident)
                     tx[(e["dest"], ident)].append(e["t"])
             seen[0] = len(prot.transport.sent)
-            for si, a in enumerate(ADDRS):
+            for si, a in enumerate(SRV):
                 want = {_ident(e) for (e, s_) in requested if s_ == si} if running[0] else set()
                 require(held[a] == want, "C14.server-state",
                         lambda: f"at idle t={sim.now:.6f} (subscriber {'running' if running[0] else 'stopped'}) a server at {a} applying the entries it was sent holds {sorted(held[a])}, requested from it: {sorted(want)}")
@@ -219,12 +221,12 @@ def run_case(case):
         require(not sim.loop.task_errors(), "C14.loop-error", lambda: str(sim.loop.task_errors()[:2]))
         # ---- refresh: while a pair stays requested and the subscriber runs, Subscribes are at most one interval apart
         for (ei, si), a, b in closed:
-            times = [t for t in tx[(ADDRS[si], _ident(ei))] if a - RES <= t <= b + RES]
+            times = [t for t in tx[(SRV[si], _ident(ei))] if a - RES <= t <= b + RES]
             if b - a < RES:
                 continue
-            require(times and times[0] - a < RES, "C14.first-subscribe", lambda: f"eventgroup {EGS[ei][:4]} requested from {ADDRS[si]} at {a:.6f} (until {b:.6f}): first Subscribe at {times[0] if times else None}")
+            require(times and times[0] - a < RES, "C14.first-subscribe", lambda: f"eventgroup {EGS[ei][:4]} requested from {SRV[si]} at {a:.6f} (until {b:.6f}): first Subscribe at {times[0] if times else None}")
             if refresh is not None:
                 pts = times + [b]
                 for x, y in zip(pts, pts[1:]):
-                    require(y - x <= refresh + RES, "C14.refresh-gap", lambda: f"eventgroup {EGS[ei][:4]} at {ADDRS[si]} stayed requested from {a:.6f} to {b:.6f} but Subscribes were sent at {[round(t, 6) for t in times]} (refresh interval {refresh})")
+                    require(y - x <= refresh + RES, "C14.refresh-gap", lambda: f"eventgroup {EGS[ei][:4]} at {SRV[si]} stayed requested from {a:.6f} to {b:.6f} but Subscribes were sent at {[round(t, 6) for t in times]} (refresh interval {refresh})")
     return ok(bool(feats) and seen[0] > 0, [f"{k}={'1+' if v else 0}" for k, v in sorted(feats.items())] + [f"ttl={'inf' if ttl == INF else 'finite'}"])
